@@ -154,6 +154,20 @@ static void yuv_wide_case (pixman_format_code_t f, vf_rng *r)
             for (int c = 0; c < 4; c++) if (!(q[c] >= want[c] - 1e-5 && q[c] <= want[c] + 1e-5)) { char key[96]; snprintf (key, sizeof key, "C10:decodef-yuv:%s", rp_name (f));
                 vf_violation (key, "pixel (%d,%d) channel %d (r,g,b,a): float reader gives %.6f, the 8-bit reader %08x i.e. %.6f", x, y, c, q[c], p, want[c]); y = h; x = w; break; } }
     }
+    /* the same image read through accessors (bits pointer = unmapped fake address, callbacks translate and bounds-check): scanline and single-pixel readers */
+    if (n) { real_base = buf; real_len = bytes; acc_oob = 0; long r0 = acc_reads;
+        pixman_image_t *ai = pixman_image_create_bits_no_clear (f, w, h, (uint32_t *)fake_base, stride), *a2 = pixman_image_create_bits (PIXMAN_a8r8g8b8, w, h, NULL, 0);
+        if (ai && a2) { pixman_image_set_accessors (ai, tr_read, tr_write);
+            const uint32_t *np = pixman_image_get_data (n), *ap = pixman_image_get_data (a2); int ns = pixman_image_get_stride (n) / 4;
+            for (int pass = 0; pass < 2; pass++) {
+                pixman_transform_t t2 = { { { 2 * 65536, 0, 0 }, { 0, 2 * 65536, 0 }, { 0, 0, 2 * 65536 } } }; pixman_image_set_transform (ai, pass ? &t2 : NULL);
+                vf_inflight ("%s through accessors, %s reader", rp_name (f), pass ? "single-pixel" : "scanline");
+                pixman_image_composite32 (PIXMAN_OP_SRC, ai, NULL, a2, 0, 0, 0, 0, 0, 0, w, h); vf_count ("evaluations", (long)w * h);
+                for (int y = 0; y < h; y++) for (int x = 0; x < w; x++) if (ap[y * ns + x] != np[y * ns + x]) { char key[96]; snprintf (key, sizeof key, "C10:accessor-vs-direct:read:%s", rp_name (f));
+                    vf_violation (key, "pixel (%d,%d): accessor image reads %08x (%s reader), the directly addressed image %08x", x, y, ap[y * ns + x], pass ? "single-pixel" : "scanline", np[y * ns + x]); y = h; pass = 2; break; } }
+            if (acc_reads == r0) { char key[96]; snprintf (key, sizeof key, "C10:accessor-bypassed:read:%s", rp_name (f)); vf_violation (key, "the read callback was never called"); }
+            if (acc_oob) { char key[96]; snprintf (key, sizeof key, "C10:accessor-out-of-bounds:%s", rp_name (f)); vf_violation (key, "%ld accessor calls outside the image storage", acc_oob); } }
+        if (ai) pixman_image_unref (ai); if (a2) pixman_image_unref (a2); }
     /* a scanline read that starts at any column (odd ones too: chroma is shared by pixel pairs) equals the single-pixel reader */
     { pixman_image_t *a = pixman_image_create_bits (PIXMAN_a8r8g8b8, w, h, NULL, 0), *b = pixman_image_create_bits (PIXMAN_a8r8g8b8, w, h, NULL, 0);
       if (a && b) { const uint32_t *ap = pixman_image_get_data (a), *bp = pixman_image_get_data (b); int st = pixman_image_get_stride (a) / 4;
